@@ -3,6 +3,7 @@
 package run
 
 import (
+	"verifharness/vt"
 	"errors"
 	"fmt"
 	"math"
@@ -112,7 +113,8 @@ func Canon(r *promql.Result) CResult {
 	}
 	pt := func(t int64, f float64) CPoint {
 		k, iv := classify(f)
-		return CPoint{T: t, K: k, V: iv}
+		// (times are reported relative to the scenario's time base: tick 0 is 0)
+		return CPoint{T: t - vt.BaseMs, K: k, V: iv}
 	}
 	switch v := r.Value.(type) {
 	case promql.Matrix:
